@@ -23,7 +23,7 @@ const (
 )
 
 // Panics used for control flow inside the engine.
-type targetPanic struct{ v value }  // the target program panicked
+type targetPanic struct{ v value }    // the target program panicked
 type unsupported struct{ msg string } // engine limitation: path is inconclusive
 type pathEnd struct {                 // path terminated by the engine
 	kind string // "assume", "violation", "unwind", "budget", "done"
@@ -39,11 +39,11 @@ type decision struct {
 }
 
 type inputVar struct {
-	Name string
-	Kind string // "bool","int","byte","choice","float32"
-	term *Term
-	cval int64 // for choice
-	Bits int
+	Name   string
+	Kind   string // "bool","int","byte","choice","float32"
+	term   *Term
+	cval   int64 // for choice
+	Bits   int
 	Signed bool
 }
 
@@ -77,35 +77,36 @@ type Machine struct {
 	solver *Solver
 	cfg    *Config
 
-	globals map[*ssa.Global]*value
-	inited  map[*ssa.Package]bool
+	globals  map[*ssa.Global]*value
+	inited   map[*ssa.Package]bool
 	extCache map[*ssa.Function]externalFn
 
 	// per path
-	prefix     []decision
-	path       []decision
-	solverPath []decision
-	inputs     []inputVar
-	nameCount  map[string]int
-	events     []string // Reach/Assert ids in order
-	obs        []obsRec
-	steps      int
-	depth      int
-	newItems   []workItem
-	model      map[string]uint64
-	evalCache  map[int]uint64
-	facts      map[int]bool
+	prefix       []decision
+	path         []decision
+	solverPath   []decision
+	inputs       []inputVar
+	nameCount    map[string]int
+	events       []string // Reach/Assert ids in order
+	obs          []obsRec
+	steps        int
+	depth        int
+	newItems     []workItem
+	model        map[string]uint64
+	evalCache    map[int]uint64
+	facts        map[int]bool
 	pendingModel map[string]uint64
-	curIf      *ssa.If
-	BranchStats map[string][2]int
-	modelActive bool
-	locksHeld  map[*value]int
-	recorded   []string
-	lastMono   *Term
-	inInit     bool
-	lastStack  string
-	panicStack string
-	exp        *Explorer
+	curIf        *ssa.If
+	BranchStats  map[string][2]int
+	modelActive  bool
+	locksHeld    map[*value]int
+	recorded     []string
+	lastMono     *Term
+	wallAt       map[int][2]value
+	inInit       bool
+	lastStack    string
+	panicStack   string
+	exp          *Explorer
 
 	// accumulated
 	st        Stats
@@ -1225,7 +1226,6 @@ type builtinMethod struct {
 	recv value
 }
 
-
 func (m *Machine) call(caller *frame, callpos token.Pos, fn value, args []value) value {
 	switch fn := fn.(type) {
 	case *ssa.Function:
@@ -1315,7 +1315,6 @@ func (m *Machine) callSSA(caller *frame, callpos token.Pos, fn *ssa.Function, ar
 	}
 	return fr.result
 }
-
 
 func (m *Machine) runFrame(fr *frame) {
 	defer func() {
